@@ -295,3 +295,562 @@ Section SpecPointwise.
     rewrite !andb_true_iff, N.eqb_eq, N.leb_le, all_free_spec. tauto.
   Qed.
 End SpecPointwise.
+
+(* ====================================================================== *)
+(* rows of a bitfield as one number                                       *)
+(* ====================================================================== *)
+Lemma nz64 : 64 <> 0. Proof. discriminate. Qed.
+
+Lemma rows_bits_lt rows :
+  Forall (fun r => r < W64) rows -> rows_bits rows < 2 ^ (64 * N.of_nat (length rows)).
+Proof.
+  induction 1 as [|r rest Hr _ IH]; cbn [rows_bits length].
+  - apply N.neq_0_lt_0, N.pow_nonzero. discriminate.
+  - apply lt_pow2_bits. intros i Hi. rewrite N.lor_spec.
+    rewrite (testbit_high r 64 i) by (try exact Hr; lia).
+    rewrite N.shiftl_spec_high' by lia.
+    apply (testbit_high _ _ _ IH). lia.
+Qed.
+
+Lemma rows_bits_testbit_gen rows : Forall (fun r => r < W64) rows -> forall i,
+  N.testbit (rows_bits rows) i =
+  match nth_error rows (nn (i / 64)) with Some r => N.testbit r (i mod 64) | None => false end.
+Proof.
+  induction 1 as [|r rest Hr _ IH]; intros i; cbn [rows_bits].
+  - rewrite N.bits_0. destruct (nn (i / 64)); reflexivity.
+  - rewrite N.lor_spec.
+    pose proof (N.div_mod i 64 nz64) as E. pose proof (N.mod_lt i 64 nz64) as L.
+    destruct (N.lt_ge_cases i 64) as [Hi|Hi].
+    + rewrite N.shiftl_spec_low by assumption. rewrite orb_false_r.
+      rewrite (N.div_small i 64 Hi), (N.mod_small i 64 Hi). reflexivity.
+    + rewrite (testbit_high r 64 i) by (try exact Hr; lia).
+      rewrite N.shiftl_spec_high' by lia. rewrite IH. cbn [orb].
+      assert (Ed : (i - 64) / 64 = i / 64 - 1).
+      { symmetry. apply (N.div_unique _ _ _ (i mod 64)); lia. }
+      assert (Em : (i - 64) mod 64 = i mod 64).
+      { symmetry. apply (N.mod_unique _ _ (i / 64 - 1)); lia. }
+      rewrite Ed, Em. unfold nn.
+      replace (N.to_nat (i / 64)) with (S (N.to_nat (i / 64 - 1))) by lia. reflexivity.
+Qed.
+
+Lemma popcount_rows_bits rows : Forall (fun r => r < W64) rows ->
+  popcount (rows_bits rows) = fold_right (fun v a => popcount v + a) 0 rows.
+Proof.
+  induction 1 as [|r rest Hr Hrest IH]; cbn [rows_bits fold_right]; [reflexivity|].
+  rewrite popcount_lor_disjoint.
+  - rewrite popcount_shiftl, IH. reflexivity.
+  - apply N.bits_inj. intros i. rewrite N.land_spec, N.bits_0.
+    destruct (N.lt_ge_cases i 64) as [Hi|Hi].
+    + rewrite N.shiftl_spec_low by assumption. apply andb_false_r.
+    + rewrite (testbit_high r 64 i) by (try exact Hr; lia). reflexivity.
+Qed.
+
+Lemma rows_zero_bits rows : Forall (fun r => r = 0) rows -> rows_bits rows = 0.
+Proof.
+  induction 1 as [|r rest Hr _ IH]; cbn [rows_bits]; [reflexivity|].
+  rewrite Hr, IH, N.shiftl_0_l. reflexivity.
+Qed.
+
+Lemma rows_bits_zero_inv rows : rows_bits rows = 0 -> Forall (fun r => r = 0) rows.
+Proof.
+  induction rows as [|r rest IH]; cbn [rows_bits]; intros H; constructor.
+  - apply N.lor_eq_0_iff in H. apply H.
+  - apply IH. apply N.lor_eq_0_iff in H. destruct H as [_ H].
+    apply N.shiftl_eq_0_iff in H. exact H.
+Qed.
+
+Lemma count_zeros_sum rows : Forall (fun r => r < W64) rows ->
+  bf_count_zeros rows + popcount (rows_bits rows) = 64 * N.of_nat (length rows).
+Proof.
+  intros H. rewrite (popcount_rows_bits rows H).
+  induction H as [|r rest Hr _ IH]; cbn [bf_count_zeros fold_right length]; [reflexivity|].
+  unfold bf_count_zeros in IH. change (count_zeros64 r) with (64 - popcount r). rewrite Nat2N.inj_succ.
+  pose proof (popcount_lt_pow2 r 64 Hr). lia.
+Qed.
+
+Section RowsOk.
+  Variable g : geom.
+  Hypothesis WF : wf_geom g.
+
+  Lemma rows_ok_len64 rows : rows_ok g rows -> 64 * N.of_nat (length rows) = HF g.
+  Proof. intros (Hl & _). rewrite Hl, <- (ROWS_nat g WF). symmetry. apply HF_64, WF. Qed.
+
+  Lemma rows_ok_length rows : rows_ok g rows -> N.of_nat (length rows) = ROWS g.
+  Proof. intros (Hl & _). rewrite Hl. symmetry. apply ROWS_nat, WF. Qed.
+
+  Lemma rows_bits_testbit rows : rows_ok g rows -> forall i,
+    N.testbit (rows_bits rows) i =
+    match nth_error rows (nn (i / 64)) with Some r => N.testbit r (i mod 64) | None => false end.
+  Proof. intros (_ & H). apply rows_bits_testbit_gen, H. Qed.
+
+  Lemma rows_bits_lt_HF rows : rows_ok g rows -> rows_bits rows < 2 ^ HF g.
+  Proof. intros H. rewrite <- (rows_ok_len64 rows H). apply rows_bits_lt, H. Qed.
+
+  Lemma rows_bits_high rows i : rows_ok g rows -> HF g <= i -> N.testbit (rows_bits rows) i = false.
+  Proof. intros H Hi. apply (testbit_high _ _ _ (rows_bits_lt_HF rows H) Hi). Qed.
+
+  Lemma popcount_rows_bits_le rows : rows_ok g rows -> popcount (rows_bits rows) <= HF g.
+  Proof. intros H. apply popcount_lt_pow2, rows_bits_lt_HF, H. Qed.
+
+  Lemma bf_count_zeros_sum rows : rows_ok g rows ->
+    bf_count_zeros rows + popcount (rows_bits rows) = HF g.
+  Proof. intros H. rewrite <- (rows_ok_len64 rows H). apply count_zeros_sum, H. Qed.
+
+  Lemma bf_count_zeros_spec rows : rows_ok g rows ->
+    bf_count_zeros rows = HF g - popcount (rows_bits rows).
+  Proof. intros H. pose proof (bf_count_zeros_sum rows H). lia. Qed.
+
+  Lemma bf_count_zeros_le rows : rows_ok g rows -> bf_count_zeros rows <= HF g.
+  Proof. intros H. pose proof (bf_count_zeros_sum rows H). lia. Qed.
+
+  Lemma count_zeros_full_zero rows : rows_ok g rows -> bf_count_zeros rows = HF g ->
+    Forall (fun r => r = 0) rows.
+  Proof.
+    intros H E. pose proof (bf_count_zeros_sum rows H).
+    apply rows_bits_zero_inv, popcount_0_inv. lia.
+  Qed.
+
+  Lemma count_zeros_of_zero rows : rows_ok g rows -> Forall (fun r => r = 0) rows ->
+    bf_count_zeros rows = HF g.
+  Proof.
+    intros H Z. pose proof (bf_count_zeros_sum rows H) as S.
+    rewrite (rows_zero_bits rows Z) in S. cbn [popcount] in S. lia.
+  Qed.
+
+  Lemma rows_ok_upd rows r v : rows_ok g rows -> v < W64 -> rows_ok g (upd rows r v).
+  Proof.
+    intros (Hl & Hf) Hv. split; [rewrite upd_length; exact Hl|].
+    clear Hl. revert r. induction Hf as [|x rest Hx Hrest IH]; intros r; destruct r; cbn [upd]; constructor; auto.
+  Qed.
+
+  (* two bitfields that differ by one block that was clear: the counts differ by the block size *)
+  Lemma count_zeros_set_block rows rows' off n :
+    rows_ok g rows -> rows_ok g rows' ->
+    N.land (rows_bits rows) (blk off n) = 0 ->
+    rows_bits rows' = N.lor (rows_bits rows) (blk off n) ->
+    bf_count_zeros rows' + n = bf_count_zeros rows.
+  Proof.
+    intros H H' D E. pose proof (bf_count_zeros_sum rows H). pose proof (bf_count_zeros_sum rows' H').
+    rewrite E, (popcount_lor_disjoint _ _ D), popcount_blk in *. lia.
+  Qed.
+
+  Lemma count_zeros_clear_block rows rows' off n :
+    rows_ok g rows -> rows_ok g rows' ->
+    N.land (rows_bits rows) (blk off n) = blk off n ->
+    rows_bits rows' = N.ldiff (rows_bits rows) (blk off n) ->
+    bf_count_zeros rows' = bf_count_zeros rows + n.
+  Proof.
+    intros H H' D E.
+    assert (D' : N.land (rows_bits rows') (blk off n) = 0).
+    { rewrite E. apply N.bits_inj. intros i. rewrite N.land_spec, N.ldiff_spec, N.bits_0.
+      destruct (N.testbit (rows_bits rows) i), (N.testbit (blk off n) i); reflexivity. }
+    assert (E' : rows_bits rows = N.lor (rows_bits rows') (blk off n)).
+    { rewrite E. apply N.bits_inj. intros i. rewrite N.lor_spec, N.ldiff_spec.
+      assert (T : N.testbit (N.land (rows_bits rows) (blk off n)) i = N.testbit (blk off n) i)
+        by (rewrite D; reflexivity).
+      rewrite N.land_spec in T.
+      destruct (N.testbit (rows_bits rows) i), (N.testbit (blk off n) i); try reflexivity; discriminate. }
+    pose proof (count_zeros_set_block rows' rows off n H' H D' E'). lia.
+  Qed.
+
+  (* a clear block leaves at least its size in zeros *)
+  Lemma count_zeros_ge_block rows off n :
+    rows_ok g rows -> off + n <= HF g -> N.land (rows_bits rows) (blk off n) = 0 ->
+    n <= bf_count_zeros rows.
+  Proof.
+    intros H Hb D. pose proof (bf_count_zeros_sum rows H) as S.
+    assert (L : N.lor (rows_bits rows) (blk off n) < 2 ^ HF g).
+    { apply lor_lt_pow2; [apply rows_bits_lt_HF, H|apply blk_lt, Hb]. }
+    apply popcount_lt_pow2 in L. rewrite (popcount_lor_disjoint _ _ D), popcount_blk in L. lia.
+  Qed.
+End RowsOk.
+
+(* ====================================================================== *)
+(* the abstraction, pointwise                                             *)
+(* ====================================================================== *)
+(* frame f is allocated according to the metadata *)
+Definition alloc_at (g : geom) (l : lower) (f : N) : bool :=
+  (f <? frames l) &&
+  match ent l (f / HF g), bf l (f / HF g) with
+  | Some e, Some rows => e_huge e || N.testbit (rows_bits rows) (f mod HF g)
+  | _, _ => false
+  end.
+
+(* huge frame h is allocated whole *)
+Definition whole_at (l : lower) (h : N) : bool :=
+  match ent l h, bf l h with Some e, Some _ => e_huge e | _, _ => false end.
+
+Lemma nth_error_nil {A} n : @nth_error A [] n = None.
+Proof. destruct n; reflexivity. Qed.
+
+Lemma whole_from_testbit : forall es bs h,
+  N.testbit (whole_from es bs) h =
+  match nth_error es (nn h), nth_error bs (nn h) with Some e, Some _ => e_huge e | _, _ => false end.
+Proof.
+  induction es as [|e es IH]; intros bs h.
+  - cbn [whole_from]. rewrite N.bits_0, nth_error_nil. reflexivity.
+  - destruct bs as [|rows bs]; cbn [whole_from].
+    + rewrite N.bits_0, nth_error_nil. destruct (nth_error (e :: es) (nn h)); reflexivity.
+    + rewrite N.lor_spec. destruct (N.eq_dec h 0) as [->|Hn].
+      * rewrite N.shiftl_spec_low by lia. rewrite orb_false_r. cbn [nn N.to_nat nth_error].
+        destruct (e_huge e); reflexivity.
+      * rewrite N.shiftl_spec_high' by lia. rewrite IH.
+        assert (T : N.testbit (if e_huge e then 1 else 0) h = false).
+        { apply (testbit_high _ 1); [destruct (e_huge e); reflexivity|lia]. }
+        rewrite T. cbn [orb]. unfold nn.
+        replace (N.to_nat h) with (S (N.to_nat (h - 1))) by lia. reflexivity.
+Qed.
+
+Section Abs.
+  Variable g : geom.
+  Hypothesis WF : wf_geom g.
+
+  Lemma ones_lt n : N.ones n < 2 ^ n.
+  Proof.
+    rewrite N.ones_equiv. assert (2 ^ n <> 0) by (apply N.pow_nonzero; discriminate). lia.
+  Qed.
+
+  Lemma huge_bits_lt e rows : rows_ok g rows -> huge_bits g e rows < 2 ^ HF g.
+  Proof.
+    intros H. unfold huge_bits. destruct (e_huge e); [apply ones_lt|apply rows_bits_lt_HF; assumption].
+  Qed.
+
+  Lemma huge_bits_testbit e rows i : i < HF g ->
+    N.testbit (huge_bits g e rows) i = e_huge e || N.testbit (rows_bits rows) i.
+  Proof.
+    intros Hi. unfold huge_bits, ones. destruct (e_huge e); [|reflexivity].
+    apply N.ones_spec_low. exact Hi.
+  Qed.
+
+  Lemma abs_from_testbit : forall es bs,
+    (forall h e rows, nth_error es h = Some e -> nth_error bs h = Some rows -> rows_ok g rows) ->
+    forall f, N.testbit (abs_from g es bs) f =
+      match nth_error es (nn (f / HF g)), nth_error bs (nn (f / HF g)) with
+      | Some e, Some rows => N.testbit (huge_bits g e rows) (f mod HF g)
+      | _, _ => false
+      end.
+  Proof.
+    induction es as [|e es IH]; intros bs Hok f.
+    - cbn [abs_from]. rewrite N.bits_0, nth_error_nil. reflexivity.
+    - destruct bs as [|rows bs]; cbn [abs_from].
+      + rewrite N.bits_0, nth_error_nil. destruct (nth_error (e :: es) (nn (f / HF g))); reflexivity.
+      + rewrite N.lor_spec.
+        pose proof (HF_nz g) as Hnz.
+        pose proof (N.div_mod f (HF g) Hnz) as E. pose proof (N.mod_lt f (HF g) Hnz) as L.
+        destruct (N.lt_ge_cases f (HF g)) as [Hf|Hf].
+        * rewrite N.shiftl_spec_low by assumption. rewrite orb_false_r.
+          rewrite (N.div_small f _ Hf), (N.mod_small f _ Hf). reflexivity.
+        * assert (Hr : rows_ok g rows) by (apply (Hok O e rows); reflexivity).
+          rewrite (testbit_high _ _ f (huge_bits_lt e rows Hr) Hf).
+          rewrite N.shiftl_spec_high' by assumption. cbn [orb].
+          rewrite IH by (intros h e' r' H1 H2; apply (Hok (S h) e' r'); assumption).
+          assert (Ed : (f - HF g) / HF g = f / HF g - 1).
+          { symmetry. apply (N.div_unique _ _ _ (f mod HF g)); [assumption|].
+            rewrite N.mul_sub_distr_l. assert (1 <= f / HF g) by nia. nia. }
+          assert (Em : (f - HF g) mod HF g = f mod HF g).
+          { symmetry. apply (N.mod_unique _ _ (f / HF g - 1)); [assumption|].
+            rewrite N.mul_sub_distr_l. assert (1 <= f / HF g) by nia. nia. }
+          rewrite Ed, Em. unfold nn.
+          assert (1 <= f / HF g) by nia.
+          replace (N.to_nat (f / HF g)) with (S (N.to_nat (f / HF g - 1))) by lia. reflexivity.
+  Qed.
+
+  (* the part of LowerInv the pointwise reading needs *)
+  Definition bfs_ok (l : lower) : Prop :=
+    forall h e rows, nth_error (ents l) h = Some e -> nth_error (bfs l) h = Some rows -> rows_ok g rows.
+
+  Lemma LowerInv_bfs_ok l : LowerInv g l -> bfs_ok l.
+  Proof. intros (_ & _ & H & _) h e rows He Hb. apply (H h e rows He Hb). Qed.
+
+  Lemma abs_frames l : o_frames (abs g l) = frames l.
+  Proof. reflexivity. Qed.
+
+  Lemma abs_alloc_testbit_gen l : bfs_ok l -> forall f, N.testbit (o_alloc (abs g l)) f = alloc_at g l f.
+  Proof.
+    intros Hok f. unfold abs, alloc_at, ent, bf; cbn. rewrite N.land_spec, abs_from_testbit by exact Hok.
+    unfold ones.
+    destruct (N.ltb_spec f (frames l)) as [Hf|Hf].
+    - rewrite N.ones_spec_low by assumption. rewrite andb_true_r. cbn [andb].
+      destruct (nth_error (ents l) (nn (f / HF g))) as [e|]; [|reflexivity].
+      destruct (nth_error (bfs l) (nn (f / HF g))) as [rows|]; [|reflexivity].
+      apply huge_bits_testbit. apply N.mod_lt, HF_nz.
+    - rewrite N.ones_spec_high by assumption. apply andb_false_r.
+  Qed.
+
+  Lemma abs_alloc_testbit l : LowerInv g l -> forall f, N.testbit (o_alloc (abs g l)) f = alloc_at g l f.
+  Proof. intros H. apply abs_alloc_testbit_gen, LowerInv_bfs_ok, H. Qed.
+
+  Lemma abs_whole_testbit_gen l h : N.testbit (o_whole (abs g l)) h = whole_at l h.
+  Proof. unfold abs, whole_at, ent, bf; cbn. apply whole_from_testbit. Qed.
+
+  Lemma abs_whole_testbit l : LowerInv g l -> forall h,
+    N.testbit (o_whole (abs g l)) h =
+    match ent l h, bf l h with Some e, Some _ => e_huge e | _, _ => false end.
+  Proof. intros _ h. apply abs_whole_testbit_gen. Qed.
+End Abs.
+
+(* ====================================================================== *)
+(* cas_all                                                                *)
+(* ====================================================================== *)
+Lemma range_test_false (h j : nat) : ((h <=? j)%nat && (j <? h + 0)%nat) = false.
+Proof. destruct (Nat.leb_spec h j), (Nat.ltb_spec j (h + 0)); try reflexivity; lia. Qed.
+
+Lemma cas_all_some : forall n es h cur new es', cas_all es h n cur new = Some es' ->
+  length es' = length es /\
+  (forall j, (h <= j < h + n)%nat -> nth_error es j = Some cur) /\
+  (forall j, nth_error es' j = if (h <=? j)%nat && (j <? h + n)%nat then Some new else nth_error es j).
+Proof.
+  induction n as [|n IH]; intros es h cur new es' H; cbn [cas_all] in H.
+  - injection H as <-. repeat split; [intros; lia|]. intros j. rewrite range_test_false. reflexivity.
+  - destruct (nth_error es h) as [e|] eqn:E; [|discriminate].
+    destruct (N.eqb_spec e cur) as [->|]; [|discriminate].
+    apply IH in H. destruct H as (Hl & Hc & Hn). rewrite upd_length in Hl.
+    assert (Hh : (h < length es)%nat) by (apply nth_error_Some; congruence).
+    repeat split; [exact Hl| |].
+    + intros j Hj. destruct (Nat.eq_dec j h) as [->|Hne]; [exact E|].
+      rewrite <- (nth_error_upd_other es h j new) by lia. apply Hc. lia.
+    + intros j. rewrite Hn.
+      destruct (Nat.leb_spec (S h) j), (Nat.ltb_spec j (S h + n)), (Nat.leb_spec h j), (Nat.ltb_spec j (h + S n));
+        cbn [andb]; try lia; try reflexivity.
+      * apply nth_error_upd_other. lia.
+      * assert (j = h) by lia. subst j. apply nth_error_upd_same. exact Hh.
+      * apply nth_error_upd_other. lia.
+      * apply nth_error_upd_other. lia.
+Qed.
+
+Lemma cas_all_none : forall n es h cur new, cas_all es h n cur new = None ->
+  exists j, (h <= j < h + n)%nat /\ nth_error es j <> Some cur.
+Proof.
+  induction n as [|n IH]; intros es h cur new H; cbn [cas_all] in H; [discriminate|].
+  destruct (nth_error es h) as [e|] eqn:E.
+  - destruct (N.eqb_spec e cur) as [->|Hne].
+    + apply IH in H. destruct H as (j & Hj & Hn). exists j. split; [lia|].
+      rewrite nth_error_upd_other in Hn by lia. exact Hn.
+    + exists h. split; [lia|]. rewrite E. congruence.
+  - exists h. split; [lia|]. rewrite E. discriminate.
+Qed.
+
+Lemma cas_all_complete : forall n es h cur new,
+  (forall j, (h <= j < h + n)%nat -> nth_error es j = Some cur) ->
+  exists es', cas_all es h n cur new = Some es'.
+Proof.
+  induction n as [|n IH]; intros es h cur new H; cbn [cas_all]; [eexists; reflexivity|].
+  rewrite (H h) by lia. rewrite N.eqb_refl. apply IH.
+  intros j Hj. rewrite nth_error_upd_other by lia. apply H. lia.
+Qed.
+
+(* ====================================================================== *)
+(* state updates                                                          *)
+(* ====================================================================== *)
+Lemma nn_inj a b : nn a = nn b -> a = b.
+Proof. unfold nn. lia. Qed.
+
+Lemma ent_set_ent_same l h e : ent l h <> None -> ent (set_ent l h e) h = Some e.
+Proof. unfold ent, set_ent; cbn. intros H. apply nth_error_upd_same, nth_error_Some, H. Qed.
+
+Lemma ent_set_ent_other l h e h' : h' <> h -> ent (set_ent l h e) h' = ent l h'.
+Proof.
+  unfold ent, set_ent; cbn. intros H. apply nth_error_upd_other. intros E. apply nn_inj in E. congruence.
+Qed.
+
+Lemma bf_set_ent l h e h' : bf (set_ent l h e) h' = bf l h'.
+Proof. reflexivity. Qed.
+
+Lemma ent_set_bf l h rows h' : ent (set_bf l h rows) h' = ent l h'.
+Proof. reflexivity. Qed.
+
+Lemma bf_set_bf_same l h rows : bf l h <> None -> bf (set_bf l h rows) h = Some rows.
+Proof. unfold bf, set_bf; cbn. intros H. apply nth_error_upd_same, nth_error_Some, H. Qed.
+
+Lemma bf_set_bf_other l h rows h' : h' <> h -> bf (set_bf l h rows) h' = bf l h'.
+Proof.
+  unfold bf, set_bf; cbn. intros H. apply nth_error_upd_other. intros E. apply nn_inj in E. congruence.
+Qed.
+
+Lemma frames_set_ent l h e : frames (set_ent l h e) = frames l.
+Proof. reflexivity. Qed.
+Lemma frames_set_bf l h rows : frames (set_bf l h rows) = frames l.
+Proof. reflexivity. Qed.
+
+(* ====================================================================== *)
+(* sizes                                                                  *)
+(* ====================================================================== *)
+Lemma div_ceil_ge a b : b <> 0 -> a <= div_ceil a b * b.
+Proof.
+  intros Hb. unfold div_ceil.
+  pose proof (N.div_mod (a + b - 1) b Hb). pose proof (N.mod_lt (a + b - 1) b Hb). nia.
+Qed.
+
+Lemma div_ceil_le a b m : b <> 0 -> a <= m * b -> div_ceil a b <= m.
+Proof.
+  intros Hb H. unfold div_ceil. apply N.lt_succ_r. apply N.div_lt_upper_bound; [exact Hb|]. nia.
+Qed.
+
+Lemma div_lt_div_ceil a b f : b <> 0 -> f < a -> f / b < div_ceil a b.
+Proof.
+  intros Hb H. apply N.div_lt_upper_bound; [exact Hb|].
+  pose proof (div_ceil_ge a b Hb). nia.
+Qed.
+
+Lemma div_ceil_lt_inv a b h : b <> 0 -> h < div_ceil a b -> h * b < a.
+Proof.
+  intros Hb H. unfold div_ceil in H.
+  pose proof (N.div_mod (a + b - 1) b Hb). pose proof (N.mod_lt (a + b - 1) b Hb).
+  assert (h + 1 <= (a + b - 1) / b) by lia. nia.
+Qed.
+
+Section Inv.
+  Variable g : geom.
+  Hypothesis WF : wf_geom g.
+
+  Lemma nbf_le_ntab fr : nbf g fr <= ntab g fr * THUGE g.
+  Proof.
+    unfold nbf, ntab. apply div_ceil_le; [apply HF_nz|].
+    pose proof (div_ceil_ge fr (TF g) (TF_nz g)). rewrite TF_eq in H. lia.
+  Qed.
+
+  Lemma frame_lt_nbf fr f : f < fr -> f / HF g < nbf g fr.
+  Proof. apply div_lt_div_ceil, HF_nz. Qed.
+
+  Lemma frame_lt_ntab fr f : f < fr -> f / TF g < ntab g fr.
+  Proof. apply div_lt_div_ceil, TF_nz. Qed.
+
+  Lemma nbf_lt_inv fr h : h < nbf g fr -> h * HF g < fr.
+  Proof. apply div_ceil_lt_inv, HF_nz. Qed.
+
+  Lemma div_TF f : f / TF g = f / HF g / THUGE g.
+  Proof. rewrite TF_eq, N.mul_comm. symmetry. apply N.div_div; [apply HF_nz|apply THUGE_nz]. Qed.
+
+  (* N-indexed reading of LowerInv *)
+  Lemma LowerInv_huge_ok l h e rows :
+    LowerInv g l -> ent l h = Some e -> bf l h = Some rows -> huge_ok g (frames l) h e rows.
+  Proof.
+    intros (_ & _ & H & _) He Hb. specialize (H (nn h) e rows He Hb).
+    unfold nn in H. rewrite N2Nat.id in H. exact H.
+  Qed.
+
+  Lemma LowerInv_no_bf l h e : LowerInv g l -> ent l h = Some e -> bf l h = None -> e = 0.
+  Proof. intros (_ & _ & _ & H) He Hb. exact (H (nn h) e He Hb). Qed.
+
+  Lemma LowerInv_bf_some l h : LowerInv g l -> h < nbf g (frames l) -> exists rows, bf l h = Some rows.
+  Proof.
+    intros (Hl & _) Hh. unfold bf. destruct (nth_error (bfs l) (nn h)) as [r|] eqn:E; [eauto|].
+    apply nth_error_None in E. unfold nn in *. lia.
+  Qed.
+
+  Lemma LowerInv_bf_lt l h rows : LowerInv g l -> bf l h = Some rows -> h < nbf g (frames l).
+  Proof.
+    intros (Hl & _) Hb. unfold bf in Hb.
+    assert (nth_error (bfs l) (nn h) <> None) as Hn by congruence.
+    apply nth_error_Some in Hn. unfold nn in *. lia.
+  Qed.
+
+  Lemma LowerInv_ent_some l h : LowerInv g l -> h < ntab g (frames l) * THUGE g -> exists e, ent l h = Some e.
+  Proof.
+    intros (_ & Hl & _) Hh. unfold ent. destruct (nth_error (ents l) (nn h)) as [r|] eqn:E; [eauto|].
+    apply nth_error_None in E. unfold nn in *. lia.
+  Qed.
+
+  Lemma LowerInv_ent_lt l h e : LowerInv g l -> ent l h = Some e -> h < ntab g (frames l) * THUGE g.
+  Proof.
+    intros (_ & Hl & _) Hb. unfold ent in Hb.
+    assert (nth_error (ents l) (nn h) <> None) as Hn by congruence.
+    apply nth_error_Some in Hn. unfold nn in *. lia.
+  Qed.
+
+  (* every managed frame has an entry and a bitfield *)
+  Lemma LowerInv_frame l f : LowerInv g l -> f < frames l ->
+    exists e rows, ent l (f / HF g) = Some e /\ bf l (f / HF g) = Some rows.
+  Proof.
+    intros H Hf. pose proof (frame_lt_nbf _ _ Hf) as Hb. pose proof (nbf_le_ntab (frames l)) as Hle.
+    destruct (LowerInv_bf_some l _ H Hb) as (rows & Er).
+    destruct (LowerInv_ent_some l (f / HF g) H) as (e & Ee); [lia|]. eauto.
+  Qed.
+
+  Lemma has_tree_spec l t : LowerInv g l -> has_tree g l t = true <-> t < ntab g (frames l).
+  Proof.
+    intros (_ & Hl & _). unfold has_tree. rewrite Hl. unfold nn. rewrite N2Nat.id, N.leb_le.
+    pose proof (THUGE_pos g). split; intros; nia.
+  Qed.
+
+  (* replacing entry and bitfield of one huge frame *)
+  Lemma LowerInv_set l h e' rows' :
+    LowerInv g l -> ent l h <> None -> bf l h <> None ->
+    huge_ok g (frames l) h e' rows' ->
+    LowerInv g (set_bf (set_ent l h e') h rows').
+  Proof.
+    intros (L1 & L2 & L3 & L4) He Hb Hok. unfold LowerInv, set_bf, set_ent; cbn.
+    rewrite !upd_length. repeat split; [exact L1|exact L2| |].
+    - intros j e rows Hj Hr. destruct (Nat.eq_dec j (nn h)) as [->|Hne].
+      + rewrite nth_error_upd_same in Hj by (apply nth_error_Some; exact He).
+        rewrite nth_error_upd_same in Hr by (apply nth_error_Some; exact Hb).
+        injection Hj as <-. injection Hr as <-. unfold nn. rewrite N2Nat.id. exact Hok.
+      + rewrite nth_error_upd_other in Hj by congruence.
+        rewrite nth_error_upd_other in Hr by congruence. apply (L3 j e rows Hj Hr).
+    - intros j e Hj Hr. destruct (Nat.eq_dec j (nn h)) as [->|Hne].
+      + rewrite nth_error_upd_same in Hr by (apply nth_error_Some; exact Hb). discriminate.
+      + rewrite nth_error_upd_other in Hj by congruence.
+        rewrite nth_error_upd_other in Hr by congruence. apply (L4 j e Hj Hr).
+  Qed.
+
+  (* replacing only entries *)
+  Lemma LowerInv_set_ents l es' :
+    LowerInv g l -> length es' = length (ents l) ->
+    (forall h e rows, nth_error es' (nn h) = Some e -> bf l h = Some rows -> huge_ok g (frames l) h e rows) ->
+    (forall h e, nth_error es' (nn h) = Some e -> bf l h = None -> e = 0) ->
+    LowerInv g {| frames := frames l; bfs := bfs l; ents := es' |}.
+  Proof.
+    intros (L1 & L2 & L3 & L4) Hl H3 H4. unfold LowerInv; cbn. repeat split; [exact L1|congruence| |].
+    - intros j e rows Hj Hr. specialize (H3 (N.of_nat j) e rows). unfold bf, nn in H3.
+      rewrite Nat2N.id in H3. auto.
+    - intros j e Hj Hr. specialize (H4 (N.of_nat j) e). unfold bf, nn in H4.
+      rewrite Nat2N.id in H4. auto.
+  Qed.
+
+  (* ----- the boolean checker is sound ----- *)
+  Lemma huge_okb_sound fr h e rows : huge_okb g fr h e rows = true -> huge_ok g fr h e rows.
+  Proof.
+    unfold huge_okb. rewrite !andb_true_iff. intros (((Hlen & Hw) & Hcase) & Hhi).
+    apply Nat.eqb_eq in Hlen. rewrite forallb_forall in Hw.
+    assert (Hrows : rows_ok g rows).
+    { split; [exact Hlen|]. apply Forall_forall. intros x Hx. apply N.ltb_lt, Hw, Hx. }
+    split; [exact Hrows|]. split; [|split].
+    - intros ->. change (MARK =? MARK) with true in Hcase. cbv iota in Hcase.
+      apply andb_true_iff in Hcase. destruct Hcase as (Hz & Hle). split.
+      + rewrite forallb_forall in Hz. apply Forall_forall. intros x Hx. apply N.eqb_eq, Hz, Hx.
+      + apply N.leb_le, Hle.
+    - intros Hne. destruct (N.eqb_spec e MARK) as [|_]; [contradiction|].
+      apply andb_true_iff in Hcase. destruct Hcase as (Hz & Hle).
+      apply N.eqb_eq in Hz. apply N.leb_le in Hle. split; assumption.
+    - intros i Hi Hfr. cbv zeta in Hhi. apply N.eqb_eq in Hhi.
+      apply (proj1 (land_blk_full _ _ _) Hhi).
+      destruct (N.leb_spec fr (h * HF g)); lia.
+  Qed.
+
+  Lemma lower_invb_from_sound fr : forall es bs h, lower_invb_from g fr h es bs = true ->
+    (forall j e rows, nth_error es j = Some e -> nth_error bs j = Some rows ->
+                      huge_ok g fr (h + N.of_nat j) e rows) /\
+    (forall j e, nth_error es j = Some e -> nth_error bs j = None -> e = 0).
+  Proof.
+    induction es as [|e es IH]; intros bs h H.
+    - split; intros j; rewrite nth_error_nil; discriminate.
+    - destruct bs as [|rows bs]; cbn [lower_invb_from] in H.
+      + split; intros j e'; [rewrite nth_error_nil; discriminate|].
+        intros Hj _. rewrite forallb_forall in H. apply N.eqb_eq, H. apply (nth_error_In _ _ Hj).
+      + apply andb_true_iff in H. destruct H as (H0 & H). apply IH in H. destruct H as (IH1 & IH2).
+        split.
+        * intros [|j] e' rows'; cbn [nth_error]; intros Hj Hr.
+          -- injection Hj as <-. injection Hr as <-. rewrite N.add_0_r. apply huge_okb_sound, H0.
+          -- replace (h + N.of_nat (S j)) with (h + 1 + N.of_nat j) by lia. apply IH1; assumption.
+        * intros [|j] e'; cbn [nth_error]; intros Hj Hr; [discriminate|]. apply (IH2 j); assumption.
+  Qed.
+
+  Lemma lower_invb_sound l : lower_invb g l = true -> LowerInv g l.
+  Proof.
+    unfold lower_invb. rewrite !andb_true_iff. intros ((H1 & H2) & H3).
+    apply Nat.eqb_eq in H1. apply Nat.eqb_eq in H2.
+    apply lower_invb_from_sound in H3. destruct H3 as (H3 & H4).
+    repeat split; [exact H1|exact H2| |exact H4].
+    intros h e rows He Hr. apply (H3 h e rows He Hr).
+  Qed.
+End Inv.
